@@ -50,6 +50,10 @@ zix_bump_calloc(ZixAllocator* const allocator,
                 const size_t        nmemb,
                 const size_t        size)
 {
+  if (size && nmemb > SIZE_MAX / size) {
+    return NULL; // Total size overflows
+  }
+
   const size_t total_size = nmemb * size;
   void* const  ptr        = zix_bump_malloc(allocator, total_size);
   if (ptr) {
